@@ -81,10 +81,23 @@ type Outcome struct {
 	Inconclusive string // harness trouble (step cap ...): never a violation
 	Res          *simrt.Result
 	Checks       int // oracle evaluations performed
+	HorizonOK    bool // the property uses the horizon as its bounded-liveness signal and judges it itself
 }
 
-// Vio records a violation (deduplicated by signature within the run).
+// Tick counts one oracle evaluation (safe to call from any task; invisible to the race detector).
+//
+//go:norace
+func (o *Outcome) Tick() { o.Checks++ }
+
+// Vio records a violation (deduplicated by signature within the run). It may be
+// called from any task: only one task runs at a time, and the bookkeeping is
+// hidden from the race detector so that it neither reports it nor learns
+// happens-before edges from it.
+//
+//go:norace
 func (o *Outcome) Vio(oracle, sigFacts, format string, a ...any) {
+	simrt.RaceOff()
+	defer simrt.RaceOn()
 	sig := oracle
 	if sigFacts != "" {
 		sig += "/" + sigFacts
@@ -149,6 +162,9 @@ func (o *Outcome) finish(res *simrt.Result, propID string) {
 	}
 	if res.StepCapHit {
 		o.Inconclusive = "step cap hit"
+	}
+	if res.HorizonHit && !o.HorizonOK {
+		o.Inconclusive = fmt.Sprintf("simulated-time horizon reached before the scenario finished (leaked: %v)", res.Leaked)
 	}
 	if res.MainPanic != "" {
 		o.Inconclusive = "harness main panicked: " + res.MainPanic
